@@ -32,6 +32,6 @@ EmitFV == pc = "emitted" => PrintT(ToJson([fv |-> SetToSeq(
              {[op |-> r.op, c |-> SetSeq(r.c), vmin |-> r.vmin, vmax |-> r.vmax, out |-> Bit(r.out), outb |-> Bit(r.outb), sound |-> Bit(r.sound)] : r \in FilterValCases})]))
 PoolOut == PrintT(ToJson([pool |-> [i \in DOMAIN Pool |->
               [rows |-> [r \in DOMAIN Pool[i].rows |-> [x |-> Pool[i].rows[r].x, y |-> Pool[i].rows[r].y]],
-               stats |-> Pool[i].stats, p |-> Pool[i].p]]]))
+               stats |-> Pool[i].stats, only |-> Pool[i].only, p |-> Pool[i].p]]]))
 ASSUME PoolOut
 =============================================================================
